@@ -236,6 +236,9 @@ def fault_plans(profile, ts=None, cfg=None):
         if exc.startswith('retryable') and site not in (
                 'stream.read', 's3.get_object'):
             d['exc'] = 'injected'
+        if exc == 'brokenpipe' and site not in (
+                'fs.write', 'dst.write', 'fs.open', 'fs.close', 'fs.rename'):
+            d['exc'] = 'oserror'
         return d
     excs = profile.get('fault_excs', ['injected', 'injected', 'oserror'])
     one = st.builds(mk, st.sampled_from(sites),
